@@ -59,6 +59,9 @@ def run(ctx):  # noqa: C901, PLR0912, PLR0915
     ctx.rule('C10.R4', 'double association is rejected before the transaction opens')
     ctx.rule('C10.R5', 'handle uniqueness checks before creation; uuid4 for generated handles; unique indices')
 
+    from . import common
+    # a context state obtained through the entity interface is a copy: associating it there associates nothing in the MDIB
+    common.entity_getters_hand_out_copies(ctx, 'C10.R1')
     # ------------------------------------------------------------------ R1
     sl = repo.func(f'{XT}.set_location')
     g = cfg_of(sl)
@@ -200,54 +203,7 @@ def run(ctx):  # noqa: C901, PLR0912, PLR0915
     #     not skipped(X)  and  (X.ContextAssociation != DISASSOCIATED  or  X.UnbindingMdibVersion is None)
     # and the unbinding version is written exactly when, in addition, the edited object has none yet - whatever mix of
     # `continue` guards, nested ifs or one combined condition the loop uses, and whatever the loop variable is called.
-    from engine.pathcond import worlds_of
-    for q, skips in ((f'{TR}.ContextStateTransaction.disassociate_all',
-                      ('{x}.Handle == ignored_handle', '{x}.Handle in self._state_updates')),
-                     (f'{XT}.disassociate_all',
-                      ('{x}.Handle == ignored_handle', '{x}.ContextAssociation == {pm}.ContextAssociation.NO_ASSOCIATION'))):
-        fi = expand_aliases(fuse_filters(repo.func(q)))   # a select-then-act pair of loops counts as one loop
-        g = cfg_of(fi)
-        loops = [n for n in walk_no_nested(fi.node) if isinstance(n, ast.For) and isinstance(n.target, ast.Name)]
-        marks = [n for n, t in _stores(g, {'ContextAssociation'})
-                 if unparse(n.stmt.value).endswith('ContextAssociation.DISASSOCIATED')]
-        unb = [n for n, t in _stores(g, {'UnbindingMdibVersion'})]
-        ok = len(loops) == 1 and len(marks) == 1 and len(unb) == 1
-        wit = None
-        skip_ok = ok
-        if ok:
-            x = loops[0].target.id
-            pm = unparse(marks[0].stmt.value).rsplit('.ContextAssociation.DISASSOCIATED', 1)[0]
-            edited = unparse(unb[0].stmt.targets[0].value)
-            sk = [t.format(x=x, pm=pm) for t in skips]
-            dis = f'{x}.ContextAssociation == {pm}.ContextAssociation.DISASSOCIATED'
-            nounb = f'{x}.UnbindingMdibVersion is None'
-            ed_nounb = f'{edited}.UnbindingMdibVersion is None'
-            w = worlds_of(g, extra_atoms=(*sk, dis, nounb, ed_nounb))
-            want_mark = f'not ({sk[0]}) and not ({sk[1]}) and (not ({dis}) or {nounb})'
-            ok1, w1 = w.equivalent(w.cond(marks[0]), want_mark)
-            ok2, w2 = w.equivalent(w.cond(unb[0]), f'({want_mark}) and {ed_nounb}')
-            ok = ok1 and ok2 and g.dominates(marks[0], unb[0])
-            # nothing at all is written for a skipped state
-            writes = [n for n, t in _stores(g, {'ContextAssociation', 'UnbindingMdibVersion', 'BindingEndTime'})]
-            skip_ok, w3 = w.implies(w.cond_any(writes), f'not ({sk[0]}) and not ({sk[1]})')
-            # every state that was marked is reported back to the caller (who writes exactly the returned handles): the
-            # handle is appended to the returned list under the same condition as the mark
-            rets_ = {unparse(r.value) for r in walk_no_nested(fi.node) if isinstance(r, ast.Return) and r.value is not None}
-            apps = [n for n, c in g.nodes_calling('append') if unparse(c.func.value) in rets_]
-            ok4 = len(apps) == 1 and w.cond(apps[0]) == w.cond(marks[0])
-            ok = ok and ok4
-            wit = {'marked when': w.describe(w.cond(marks[0])), 'unbinding written when': w.describe(w.cond(unb[0])),
-                   'handle returned when': w.describe(w.cond(apps[0])) if apps else None,
-                   'difference': w1 or w2 or w3}
-        ctx.ob('C10.R3', f'{fi.cls.name}.disassociate_all marks', ok,
-               'every state that is not yet (properly) disassociated is marked DISASSOCIATED; the unbinding version is '
-               'set when absent', fi=fi, witness=wit)
-        ctx.ob('C10.R3', f'{fi.cls.name}.disassociate_all skip set', skip_ok,
-               f'skipped states are exactly: {[t.format(x="state", pm="pm_types") for t in skips]}', fi=fi, witness=wit)
-        rets = [n for n in walk_no_nested(fi.node) if isinstance(n, ast.Return)]
-        ctx.ob('C10.R3', f'{fi.cls.name}.disassociate_all loop', any(isinstance(n, ast.For) for n in walk_no_nested(fi.node))
-               and len(rets) == 1 and not any(isinstance(n, ast.Break) for n in walk_no_nested(fi.node)),
-               'all states of the descriptor are visited (single loop, no break, single return)', fi=fi)
+    disassociate_all_marks(ctx, 'C10.R3')
     # transaction variant goes through get_context_state (copy, version, transaction membership)
     d1 = repo.func(f'{TR}.ContextStateTransaction.disassociate_all')
     g1 = cfg_of(d1)
@@ -337,24 +293,7 @@ def run(ctx):  # noqa: C901, PLR0912, PLR0915
     ctx.ob('C10.R4', 'count per descriptor', ok, 'associated proposals are counted per DescriptorHandle', fi=sc)
 
     # ------------------------------------------------------------------ R5
-    mkc = repo.func(f'{TR}.ContextStateTransaction.mk_context_state')
-    g = cfg_of(mkc)
-    src = xsrc(mkc)
-    look = [n for n, c in g.nodes_calling('get_one') if 'context_states.handle' in unparse(c.func)]
-    # a raise on the edge "the context-state lookup found something" - the lookup may sit in a local or in the test itself
-    rz = [n for n in g.nodes if n.kind == 'raisestmt' and any(
-        pol is False and 'context_states.handle.get_one(' in txt and txt.endswith(' is None')
-        for txt, pol in g.facts_symbolic(n))]
-    ok = bool(look) and bool(rz) and 'context_state_handle in self._state_updates' in src
-    ctx.ob('C10.R5', 'mk_context_state checks the state handle index', ok,
-           'mk_context_state rejects an explicit handle that exists as context state or in the transaction', fi=mkc)
-    ok2 = 'descriptions.handle' in src and any('context_state_handle' in txt and 'descriptions.handle' in txt
-                                               for n in g.nodes if n.kind == 'branch' for txt in [unparse(n.test)])
-    ctx.ob('C10.R5', 'mk_context_state checks the descriptor handle index', ok2,
-           'mk_context_state rejects an explicit handle that is a descriptor handle' if ok2 else
-           'mk_context_state(descriptor_handle, context_state_handle=<handle of an existing descriptor>) is accepted: '
-           'the new context state duplicates a descriptor handle, handles are no longer unique across the MDIB',
-           fi=mkc)
+    mkc, g = mk_context_state_checks_handles(ctx, 'C10.R5')
     hs = [(n, t) for n, t in _stores(g, {'Handle'})]
     gen_ok = bool(hs) and first_else_second(g, None, None, 'context_state_handle', 'uuid.uuid4().hex',
                                             sites=[(n, n.stmt.value) for n, _t in hs])
@@ -381,7 +320,89 @@ def run(ctx):  # noqa: C901, PLR0912, PLR0915
            'the SetContextState handler replaces the placeholder handle of a new state by a uuid4', fi=tp)
 
 
+def mk_context_state_checks_handles(ctx, rule):
+    """C10.R5 part (shared with C03 / C04: a handle clash that is only found by the unique index in the middle of the commit leaves
+    a half-applied transaction with a bumped MdibVersion and no report)."""
+    repo = ctx.repo
+    mkc = repo.func(f'{TR}.ContextStateTransaction.mk_context_state')
+    g = cfg_of(mkc)
+    src = xsrc(mkc)
+    look = [n for n, c in g.nodes_calling('get_one') if 'context_states.handle' in unparse(c.func)]
+    # a raise on the edge "the context-state lookup found something" - the lookup may sit in a local or in the test itself
+    rz = [n for n in g.nodes if n.kind == 'raisestmt' and any(
+        pol is False and 'context_states.handle.get_one(' in txt and txt.endswith(' is None')
+        for txt, pol in g.facts_symbolic(n))]
+    ok = bool(look) and bool(rz) and 'context_state_handle in self._state_updates' in src
+    ctx.ob(rule, 'mk_context_state checks the state handle index', ok,
+           'mk_context_state rejects an explicit handle that exists as context state or in the transaction', fi=mkc)
+    ok2 = 'descriptions.handle' in src and any('context_state_handle' in txt and 'descriptions.handle' in txt
+                                               for n in g.nodes if n.kind == 'branch' for txt in [unparse(n.test)])
+    ctx.ob(rule, 'mk_context_state checks the descriptor handle index', ok2,
+           'mk_context_state rejects an explicit handle that is a descriptor handle' if ok2 else
+           'mk_context_state(descriptor_handle, context_state_handle=<handle of an existing descriptor>) is accepted: '
+           'the new context state duplicates a descriptor handle, handles are no longer unique across the MDIB',
+           fi=mkc)
+    return mkc, g
+
+
 # ---------------------------------------------------------------------- self-test seeds
+def disassociate_all_marks(ctx, rule):
+    """Truth-table obligations of the two disassociate_all implementations (C10.R3; shared with C16: the location that a
+    provider announces is the one associated state)."""
+    repo = ctx.repo
+    from engine.pathcond import worlds_of
+    for q, skips in ((f'{TR}.ContextStateTransaction.disassociate_all',
+                      ('{x}.Handle == ignored_handle', '{x}.Handle in self._state_updates')),
+                     (f'{XT}.disassociate_all',
+                      ('{x}.Handle == ignored_handle', '{x}.ContextAssociation == {pm}.ContextAssociation.NO_ASSOCIATION'))):
+        fi = expand_aliases(fuse_filters(repo.func(q)))   # a select-then-act pair of loops counts as one loop
+        g = cfg_of(fi)
+        loops = [n for n in walk_no_nested(fi.node) if isinstance(n, ast.For) and isinstance(n.target, ast.Name)]
+        marks = [n for n, t in _stores(g, {'ContextAssociation'})
+                 if unparse(n.stmt.value).endswith('ContextAssociation.DISASSOCIATED')]
+        unb = [n for n, t in _stores(g, {'UnbindingMdibVersion'})]
+        ok = len(loops) == 1 and len(marks) == 1 and len(unb) == 1
+        wit = None
+        skip_ok = ok
+        if ok:
+            x = loops[0].target.id
+            pm = unparse(marks[0].stmt.value).rsplit('.ContextAssociation.DISASSOCIATED', 1)[0]
+            edited = unparse(unb[0].stmt.targets[0].value)
+            sk = [t.format(x=x, pm=pm) for t in skips]
+            dis = f'{x}.ContextAssociation == {pm}.ContextAssociation.DISASSOCIATED'
+            nounb = f'{x}.UnbindingMdibVersion is None'
+            ed_nounb = f'{edited}.UnbindingMdibVersion is None'
+            w = worlds_of(g, extra_atoms=(*sk, dis, nounb, ed_nounb))
+            want_mark = f'not ({sk[0]}) and not ({sk[1]}) and (not ({dis}) or {nounb})'
+            ok1, w1 = w.equivalent(w.cond(marks[0]), want_mark)
+            ok2, w2 = w.equivalent(w.cond(unb[0]), f'({want_mark}) and {ed_nounb}')
+            ok = ok1 and ok2 and g.dominates(marks[0], unb[0])
+            # nothing at all is written for a skipped state
+            writes = [n for n, t in _stores(g, {'ContextAssociation', 'UnbindingMdibVersion', 'BindingEndTime'})]
+            skip_ok, w3 = w.implies(w.cond_any(writes), f'not ({sk[0]}) and not ({sk[1]})')
+            # every state that was marked is reported back to the caller (who writes exactly the returned handles): the
+            # handle is appended to the returned list under the same condition as the mark
+            rets_ = {unparse(r.value) for r in walk_no_nested(fi.node) if isinstance(r, ast.Return) and r.value is not None}
+            apps = [n for n, c in g.nodes_calling('append') if unparse(c.func.value) in rets_]
+            ok4 = len(apps) == 1 and w.cond(apps[0]) == w.cond(marks[0])
+            ok = ok and ok4
+            wit = {'marked when': w.describe(w.cond(marks[0])), 'unbinding written when': w.describe(w.cond(unb[0])),
+                   'handle returned when': w.describe(w.cond(apps[0])) if apps else None,
+                   'difference': w1 or w2 or w3}
+        ctx.ob(rule, f'{fi.cls.name}.disassociate_all marks', ok,
+               'every state that is not yet (properly) disassociated is marked DISASSOCIATED; the unbinding version is '
+               'set when absent' if ok else
+               f'{fi.cls.name}.disassociate_all: the condition under which a state is marked DISASSOCIATED / given its unbinding '
+               f'version is not `not skipped and (association != DISASSOCIATED or no unbinding version)`: {wit}; a state that '
+               f'should have been disassociated stays associated next to the new one', fi=fi, witness=wit)
+        ctx.ob(rule, f'{fi.cls.name}.disassociate_all skip set', skip_ok,
+               f'skipped states are exactly: {[t.format(x="state", pm="pm_types") for t in skips]}', fi=fi, witness=wit)
+        rets = [n for n in walk_no_nested(fi.node) if isinstance(n, ast.Return)]
+        ctx.ob(rule, f'{fi.cls.name}.disassociate_all loop', any(isinstance(n, ast.For) for n in walk_no_nested(fi.node))
+               and len(rets) == 1 and not any(isinstance(n, ast.Break) for n in walk_no_nested(fi.node)),
+               'all states of the descriptor are visited (single loop, no break, single return)', fi=fi)
+
+
 from selftest import seed  # noqa: E402
 
 _T = 'src/sdc11073/mdib/transactions.py'
